@@ -330,6 +330,8 @@ struct Inner {
     opens: HashMap<usize, (u64, u64, Permit)>,
     /// `r<k>` → responder.
     responders: HashMap<usize, Responder>,
+    /// far ends that are kept open but never read (`ev subopen r<k> noread`).
+    unread: Vec<Responder>,
 }
 
 pub struct RrBox {
@@ -407,6 +409,7 @@ impl Inner {
             subs: HashMap::new(),
             opens: HashMap::new(),
             responders: HashMap::new(),
+            unread: Vec::new(),
         }
     }
 
@@ -534,6 +537,35 @@ impl Inner {
                     }
                 }
             }
+            ["sendfb", p, len, fill, mode, fbn, flen, ffill] => {
+                let (Some(p), Some(len), Some(fill), Some(fbn), Some(flen), Some(ffill)) =
+                    (n(p), n(len), n(fill), n(fbn), n(flen), n(ffill))
+                else {
+                    return "bad-op".into();
+                };
+                let options = match *mode {
+                    "dial" => DialOptions::Dial,
+                    "reject" => DialOptions::Reject,
+                    _ => return "bad-op".into(),
+                };
+                let k = self.sends.len();
+                match self.handle.try_send_request_with_fallback(
+                    peer(p as u64),
+                    payload(len, fill),
+                    (ProtocolName::from(format!("/req/fb{fbn}")), payload(flen, ffill)),
+                    options,
+                ) {
+                    Ok(id) => {
+                        self.sends.push(Some(num(&id)));
+                        self.names.insert(num(&id), format!("r{k}"));
+                        format!("r{k}")
+                    }
+                    Err(_) => {
+                        self.sends.push(None);
+                        "clogged".into()
+                    }
+                }
+            }
             ["cancel", r] => match index(r, 'r').and_then(|k| self.sends.get(k).copied().flatten()) {
                 Some(id) => {
                     self.handle.cancel_request(RequestId::from(id)).await;
@@ -617,17 +649,28 @@ impl Inner {
                             .send(InnerTransportEvent::SubstreamOpened {
                                 peer: peer(p),
                                 protocol: ProtocolName::from(PROTOCOL),
-                                fallback: None,
+                                // `fb=<n>`: negotiated with fallback protocol `n`
+                                fallback: parse_kv(rest, "fb")
+                                    .and_then(n)
+                                    .map(|fbn| ProtocolName::from(format!("/req/fb{fbn}"))),
                                 direction: Direction::Outbound(SubstreamId::from(sid)),
                                 connection_id: ConnectionId::from(c as usize),
                                 substream,
                                 opening_permit: permit,
                             })
                             .await;
-                        self.responders.insert(k, Responder { incoming, end: None });
-                        self.settle().await;
-                        let got = self.responder_view(k).await;
-                        format!("opened:{got}")
+                        if rest.contains(&"noread") {
+                            // the far end stays open but nobody ever reads it
+                            self.responders.remove(&k);
+                            self.unread.push(Responder { incoming, end: None });
+                            self.settle().await;
+                            "opened:unread".into()
+                        } else {
+                            self.responders.insert(k, Responder { incoming, end: None });
+                            self.settle().await;
+                            let got = self.responder_view(k).await;
+                            format!("opened:{got}")
+                        }
                     }
                     Some((sid, _)) => {
                         let error = match rest.first().copied() {
